@@ -7,7 +7,7 @@ from odata_query import ast
 from odata_query.roundtrip import AstToODataVisitor
 import checks.c09 as c09
 
-PROP_MODS = ["ODataVerif.Tie.Sql", "ODataVerif.Tie.SqlTemplates", "ODataVerif.Tie.ExceptionTree", "ODataVerif.Tie.ParserTables", "ODataVerif.Props.C12", "ODataVerif.Props.C10Image", "ODataVerif.Props.C06Image"]
+PROP_MODS = ["ODataVerif.Props.C12Orm", "ODataVerif.Tie.Sql", "ODataVerif.Tie.SqlTemplates", "ODataVerif.Tie.ExceptionTree", "ODataVerif.Tie.ParserTables", "ODataVerif.Props.C12", "ODataVerif.Props.C10Image", "ODataVerif.Props.C06Image"]
 
 def rel_filters():
     """paths and lambdas over the relational schema (P root): well-typed by construction"""
@@ -173,6 +173,34 @@ def run(ctx):
         tally["roundtrip:" + r.split(" ")[0]] += 1
         if not (r.startswith("ok ") or r.startswith("lib ")) and w in well:
             viol.append(("roundtrip", n, r, "internal error leaked"))
+    #  (2b) the VISITOR models of the ORM backends (Model/Orm.lean: the subject of C12Orm / C02 / C03 / C08) against the real visitors on the WHOLE matrix, well-typed or
+    #       not: outcome class and exception payload.  A statement the visitor returned but the host ORM could not compile ("env:") is a visitor success.
+    def list_outside_in(n, ok=False):
+        if isinstance(n, ast.List):
+            return not ok or any(list_outside_in(x) for x in n.val)
+        if isinstance(n, ast.Compare) and isinstance(n.comparator, ast.In):
+            return list_outside_in(n.left) or list_outside_in(n.right, ok=True)
+        import dataclasses
+        for f in dataclasses.fields(n) if dataclasses.is_dataclass(n) else []:
+            v = getattr(n, f.name)
+            if isinstance(v, list):
+                if any(list_outside_in(x) for x in v if dataclasses.is_dataclass(x)):
+                    return True
+            elif dataclasses.is_dataclass(v) and list_outside_in(v):
+                return True
+        return False
+    matrix = [(w, n) for w, n in sc.dedup(sc.node_kind_matrix() + sc.operator_nestings()) if not list_outside_in(n)]
+    COLS = "id,i1,i2,f1,s1,s2,b1,d1,dt1"
+    for bname, req, real in (("django", lambda w: driver.req("djbuild", w), lambda n: oc.django_compile(n)[0]),
+                             ("sa-orm", lambda w: driver.req("sabuild", "orm", COLS, w), lambda n: oc.sa_compile(n, "orm")[0]),
+                             ("sa-core", lambda w: driver.req("sabuild", "core", COLS, w), lambda n: oc.sa_compile(n, "core")[0])):
+        mouts = driver.run_batch([req(w) for w, _ in matrix])
+        keep = [(w, n) for (w, n), m in zip(matrix, mouts) if m != "unmodelled"]
+        def cls(o):
+            return "ok" if (o.startswith("ok") or o.startswith("env")) else o
+        common.correspond(ctx, f"{bname}-visitor-outcome-matrix", keep, real_fn=lambda c, real=real: cls(real(c[1])),
+                          model_reqs=lambda c, req=req: req(c[0]), model_parse=lambda o: cls(o),
+                          nontrivial=lambda c, r: r != "ok", describe=lambda c: repr(c[1])[:300], bucket=lambda c, r: " ".join(r.split(" ")[:2]))
     #  (3) ORM backends (scalar model T for the typed matrix, relational model P for paths / lambdas / unknown fields)
     orm = [("django", lambda n, m: oc.django_compile(n, m)[0]), ("sa-orm", lambda n, m: oc.sa_compile(n, "orm", m)[0]),
            ("sa-core", lambda n, m: oc.sa_compile(n, "core", m)[0])]
